@@ -718,6 +718,84 @@ impl<'a> Nh<'a> {
         if n != N {
             self.note_model("zst iteration count");
         }
+        // every reference handed out lies inside the container's bytes also when it is a reference to a
+        // zero-sized key / value (a "dangling but aligned" address would be a valid reference, but it does not
+        // point into the container)
+        for (k, x) in m.iter() {
+            self.inside("iter(zero-sized pair)", k, &m);
+            self.inside("iter(zero-sized pair)", x, &m);
+        }
+        for (k, x) in &m {
+            self.inside("&map(zero-sized pair)", k, &m);
+            self.inside("&map(zero-sized pair)", x, &m);
+        }
+        for k in m.keys() {
+            self.inside("keys(zero-sized pair)", k, &m);
+        }
+        for x in m.values() {
+            self.inside("values(zero-sized pair)", x, &m);
+        }
+        {
+            let mut it = m.iter();
+            if let Some((k, _)) = it.nth(N / 2) {
+                self.inside("iter.nth(zero-sized pair)", k, &m);
+            }
+        }
+        let lo = &m as *const Map<Z, (), N> as usize;
+        let hi = lo + std::mem::size_of::<Map<Z, (), N>>();
+        for (k, x) in m.iter_mut() {
+            let (a, b) = (k as *const Z as usize, x as *mut () as usize);
+            self.refs_checked += 2;
+            if a < lo || a > hi || b < lo || b > hi {
+                ledger::set_ctx(self.hist, 0, "iter_mut(zero-sized pair)");
+                ledger::violation("C06", "ref-outside@iter_mut(zero-sized pair)".to_string(), format!("iter_mut handed out references at {:#x} / {:#x}, outside the container's bytes [{:#x}, {:#x}) [{}]", a, b, lo, hi, self.descr));
+            }
+        }
+        z_set_eq(true);
+        if N > 0 {
+            if let Some((k, x)) = m.get_key_value(&z) {
+                self.inside("get_key_value(zero-sized pair)", k, &m);
+                self.inside("get_key_value(zero-sized pair)", x, &m);
+            } else {
+                self.note_model("zst lookup");
+            }
+        }
+        z_set_eq(false);
+        {
+            // sets of zero-sized elements and their algebra
+            let mut a: Set<Z, N> = Set::new();
+            let mut b: Set<Z, N> = Set::new();
+            for i in 0..N {
+                a.insert(Z::new());
+                if i % 2 == 0 {
+                    b.insert(Z::new());
+                }
+            }
+            let (pa, pb): (*const Set<Z, N>, *const Set<Z, N>) = (&a, &b);
+            let within = |p: usize| {
+                let (la, lb) = (pa as usize, pb as usize);
+                let sz = std::mem::size_of::<Set<Z, N>>();
+                (p >= la && p <= la + sz) || (p >= lb && p <= lb + sz)
+            };
+            let mut bad: Vec<(&'static str, usize)> = Vec::new();
+            for e in a.iter() {
+                if !within(e as *const Z as usize) { bad.push(("Set::iter", e as *const Z as usize)); }
+            }
+            for e in a.union(&b) {
+                if !within(e as *const Z as usize) { bad.push(("Set::union", e as *const Z as usize)); }
+            }
+            for e in a.difference(&b) {
+                if !within(e as *const Z as usize) { bad.push(("Set::difference", e as *const Z as usize)); }
+            }
+            for e in a.symmetric_difference(&b) {
+                if !within(e as *const Z as usize) { bad.push(("Set::symmetric_difference", e as *const Z as usize)); }
+            }
+            self.refs_checked += 4 * N as u64;
+            for (name, addr) in bad {
+                ledger::set_ctx(self.hist, 0, name);
+                ledger::violation("C06", format!("ref-outside@{}(zero-sized)", name), format!("{} yielded a reference at {:#x}, outside both operand sets [{}]", name, addr, self.descr));
+            }
+        }
         win!(self, "retain", m.retain(|_, _| true));
         let c = win!(self, "clone", m.clone());
         win!(self, "into_iter", drop(c.into_iter()));
